@@ -352,3 +352,38 @@ func writeMarshalG2(repoRoot, srcRoot, verifRoot string, check bool) int {
 	}
 	return stale
 }
+
+// ---------------- FFT kernels ----------------
+
+type fftCfg struct {
+	Pkg   string // ./ecc/bn254/fr/fft
+	Field string // ecc/bn254/fr
+	Elem  string // import name of the field package in the fft package (fr, koalabear, ...)
+}
+
+func fftCfgs(srcRoot string) []fftCfg {
+	var out []fftCfg
+	for _, p := range globPkgs(srcRoot, "ecc/*/fr/fft", "field/*/fft") {
+		rel := strings.TrimPrefix(p, "./")
+		b, err := os.ReadFile(filepath.Join(srcRoot, rel, "fft.go"))
+		if err != nil || !strings.Contains(string(b), "\nfunc innerDIFWithTwiddlesGeneric(") {
+			continue
+		}
+		field := filepath.Dir(rel)
+		out = append(out, fftCfg{Pkg: p, Field: field, Elem: filepath.Base(field)})
+	}
+	return out
+}
+
+func writeFFT(repoRoot, srcRoot, verifRoot string, check bool) int {
+	b, err := os.ReadFile(filepath.Join(verifRoot, "contracts", "fft", "kernels.go.tmpl"))
+	if err != nil {
+		return 0
+	}
+	stale := 0
+	for _, c := range fftCfgs(srcRoot) {
+		s := strings.ReplaceAll(string(b), "fr.Element", c.Elem+".Element")
+		stale += installText(filepath.Join(repoRoot, strings.TrimPrefix(c.Pkg, "./"), "zz_verif_contracts_kernels.go"), s, check)
+	}
+	return stale
+}
